@@ -190,6 +190,8 @@ def pred_alloc(ops, impl):
             t = o.split()
             if t[1] == "check" and t[3] == "mi" and f.get("spare20") == "false":
                 bad.append((i, f"integrity check allocates ({f['allocs']}/run) with fewer than 20 spare bytes behind Raw"))
+            elif t[1] == "build" and any(x.startswith("ua:") and x.count(",") >= 20 for x in t[3].split("+")):
+                bad.append((i, f"Build with an UNKNOWN-ATTRIBUTES setter of more than 20 entries allocates ({f['allocs']}/run)"))
             else:
                 bad.append((i, f"{f['allocs']} allocation(s) per run in steady state: {o[:80]}"))
     return bad
@@ -485,6 +487,7 @@ PROPS = {
         "theorems": ["Stun.C20.decode_warm", "Stun.C20.decode_cold", "Stun.C20.decode_cap", "Stun.C20.decode_steady",
                      "Stun.C20.readFrom_never", "Stun.C20.build_warm", "Stun.C20.integrityCheck_alloc_iff",
                      "Stun.C20.integrityCheck_warm", "Stun.C20.integrityCheck_allocates_without_spare",
+                     "Stun.C20.setterExtra_iff", "Stun.C20.unknownAttrs_21_allocates",
                      "Stun.BuildProofs.build_cap", "Stun.BuildProofs.setter_cap", "Stun.BuildProofs.add_cap"],
         "streams": ["alloc"],
         "level": "proof",
